@@ -448,7 +448,7 @@ class C14(CheckBase):
 
     def run_xproc(self, case: dict) -> dict:
         log = EventLog()
-        d = os.path.join(fs_scratch(), "verif-%d-xp" % os.getpid())
+        d = os.path.join(fs_scratch(), "verif-%07d-xp" % os.getpid())
         os.makedirs(d, exist_ok=True)
         violations = []
         try:
